@@ -93,6 +93,27 @@ Theorem C02_cast_pass_sound :
 Proof. exact cast_pass_sound. Qed.
 Print Assumptions C02_cast_pass_sound.
 
+(* the same pass, for every graph that is admissible (SSA, well-typed inputs, true dtype annotations) WHEN THE PASS
+   STARTS: admissibility is preserved by every iteration (values are kept up to tteq, which keeps the dtype; the
+   removed names are no longer defined), so nothing is assumed about the intermediate graphs of the loop *)
+Theorem C02_cast_step_admissible :
+  forall (sem : string -> list nat -> list ttensor -> option (list ttensor)),
+    (forall op ats vs vs' o, Forall2 tteq vs vs' -> sem op ats vs = Some o -> exists o', sem op ats vs' = Some o' /\ Forall2 tteq o o') ->
+    (forall op ats vs o, Forall wt vs -> sem op ats vs = Some o -> Forall wt o) ->
+    (forall t vs o, sem "Cast"%string [t] vs = Some o -> exists x d, vs = [x] /\ dtype_of_code (Z.of_nat t) = Some d /\ o = [tcast d x]) ->
+  forall g g' e ef, admissible sem g e -> eval ttensor sem (ag_nodes g) e = Some ef -> cast_step g = Some g' -> admissible sem g' e.
+Proof. exact cast_step_admissible. Qed.
+Print Assumptions C02_cast_step_admissible.
+
+Theorem C02_cast_pass_sound_strong :
+  forall (sem : string -> list nat -> list ttensor -> option (list ttensor)),
+    (forall op ats vs vs' o, Forall2 tteq vs vs' -> sem op ats vs = Some o -> exists o', sem op ats vs' = Some o' /\ Forall2 tteq o o') ->
+    (forall op ats vs o, Forall wt vs -> sem op ats vs = Some o -> Forall wt o) ->
+    (forall t vs o, sem "Cast"%string [t] vs = Some o -> exists x d, vs = [x] /\ dtype_of_code (Z.of_nat t) = Some d /\ o = [tcast d x]) ->
+  forall fuel g e, admissible sem g e -> refines ttensor tteq sem (to_graph g) (to_graph (cast_pass fuel g)) e.
+Proof. exact cast_pass_sound_strong. Qed.
+Print Assumptions C02_cast_pass_sound_strong.
+
 (* ---- a second pass verified end to end: remove_orphan_transposes_ir only performs dead-node removal, for
         every graph, counting graph outputs and nested-graph captures as observers *)
 From J2O Require Import OrphanPass.
@@ -154,3 +175,88 @@ Theorem C02_redirect_remove_env :
       forall y a', y <> o -> ef' y = Some a' -> exists a, ef y = Some a /\ veq a a'.
 Proof. exact Preserve.redirect_remove_env. Qed.
 Print Assumptions C02_redirect_remove_env.
+
+(* ---- two more passes verified end to end: remove_redundant_reshape_pairs_ir and remove_redundant_transpose_pairs_ir.
+        Models in theories/ReshapePairPass.v / TransposePairPass.v (tied to the real passes by differential run on random
+        onnx_ir graphs: harness/c02_passes.py); tensor algebra in ElemCommute.v (n-ary pointwise operators with numpy
+        broadcasting against one-element operands commute with every Reshape and, when no operand outranks the data,
+        with Transpose); the rewrite changes the values of the chain's intermediate names, so soundness is a simulation
+        argument (ChainSim.v) rather than an instance of Redirect.v.  Operator semantics enter as hypotheses stated once
+        for fixed operator lists (ElemSem.v); the translated ALLOWED_ELEMWISE is connected to them by ElemSem.allowed_in_pw,
+        so a non-pointwise operator added to the Python table breaks the proofs. *)
+From J2O Require Import ElemCommute ElemSem ChainSim ReshapePairPass TransposePairPass.
+
+Theorem C02_pointwise_commutes_with_reshape : forall (A : Type) (F : list A -> A) (vs vs' : list (tensor A)),
+  Forall2 flat_eq vs vs' -> operands_ok vs -> operands_ok vs' -> flat_eq (pwn F vs) (pwn F vs').
+Proof. exact (@pwn_flat). Qed.
+Print Assumptions C02_pointwise_commutes_with_reshape.
+
+Theorem C02_pointwise_with_scalars_commutes_with_transpose :
+  forall (A : Type) (F : list A -> A) (p : list nat) (vs vs' : list (tensor A)),
+  is_perm p -> Forall2 (trel p) vs vs' ->
+  Exists (fun v => length (shape v) = length p) vs -> Forall (fun v => length (shape v) <= length p) vs -> operands_ok vs ->
+  operands_ok vs' /\ teq (pwn F vs) (transpose p (pwn F vs')) /\ length (shape (pwn F vs')) = length p.
+Proof. exact (@pwn_transpose). Qed.
+Print Assumptions C02_pointwise_with_scalars_commutes_with_transpose.
+
+Theorem C02_allowed_elemwise_are_modelled_operators : forall op,
+  str_in op ALLOWED_ELEMWISE = true -> op = "CastLike"%string \/ str_in op pw_ops = true.
+Proof. exact allowed_in_pw. Qed.
+Print Assumptions C02_allowed_elemwise_are_modelled_operators.
+
+(* remove_redundant_reshape_pairs_ir (with the rank guard of the repaired pass), for every annotated SSA graph over tensors
+   of any element type whose annotations (declared dims under one binding of the symbols, one-element flags, ranks of
+   constant payloads) are true at run time *)
+Theorem C02_reshape_pair_pass_sound :
+  forall (A : Type) (sem : string -> list nat -> list (tensor A) -> option (list (tensor A))),
+  (forall op ats vs vs' o, Forall2 teq vs vs' -> sem op ats vs = Some o -> exists o', sem op ats vs' = Some o' /\ Forall2 teq o o') ->
+  sem_reshape_spec A sem ->
+  forall F : string -> list nat -> list A -> A, sem_pointwise_spec A sem F ->
+  forall Fcl : list nat -> tensor A -> A -> A, sem_castlike_spec A sem Fcl -> castlike_type_only A Fcl ->
+  sem_accepts_spec A sem ->
+  forall fuel g e, ReshapePairPass.admissible_along A sem fuel g e ->
+    refines (tensor A) teq sem (pg_graph g) (pg_graph (reshape_pair_pass fuel g)) e.
+Proof. exact ReshapePairPass.reshape_pair_pass_sound. Qed.
+Print Assumptions C02_reshape_pair_pass_sound.
+
+(* HISTORY: the pass as it was before the repair (no rank test on one-element side constants) folds
+   x:[6] -Reshape-> [2,3] -Max(., c:[1,1])-> -Reshape-> [6] as well, and the value that then replaces the [6]-shaped output
+   has shape [1,6] (genuine defect, reproduced with onnxruntime: .scratch/c02p/defect_reshape_pair_rank.py); the repaired
+   pass keeps the pair *)
+Theorem C02_reshape_pair_prerepair_rank_defect :
+  pg_nodes (reshape_pair_pass_prerepair 5 (ex_graph 8)) = [mkNode "Max" [] [1; 8] [] [4]; mkNode "Relu" [] [4] [] [9]]
+  /\ pg_shape (ex_graph 8) 6 = Some [DInt 6]
+  /\ pg_shape (reshape_pair_pass_prerepair 5 (ex_graph 8)) 4 = Some [DInt 1; DInt 6]
+  /\ List.length (pg_nodes (reshape_pair_pass 5 (ex_graph 8))) = 4.
+Proof. exact (conj (proj1 reshape_pair_prerepair_rank_defect) (conj (proj1 (proj2 reshape_pair_prerepair_rank_defect))
+         (conj (proj2 (proj2 reshape_pair_prerepair_rank_defect)) reshape_pair_higher_rank_constant_kept))). Qed.
+Print Assumptions C02_reshape_pair_prerepair_rank_defect.
+
+(* remove_redundant_transpose_pairs_ir: the COMPLETE decision is modelled (TransposePairPass.decide_step: Add chains, forests,
+   single-source DAGs, single-consumer chains, multi-consumer pairs); soundness is proved for the action kinds of
+   TransposePairPass.proved_kind — the direct inverse pair (phase "Pass 0"), the single-consumer ALLOWED_ELEMWISE chain with
+   one-element side operands (CastLike taking the chain value as data operand), and the multi-consumer bypass — and for every
+   run of the pass that only takes such actions.  The Add-chain and forest actions are modelled and tied, not proved. *)
+Theorem C02_transpose_pair_action_sound :
+  forall (A : Type) (sem : string -> list nat -> list (tensor A) -> option (list (tensor A))),
+  (forall op ats vs vs' o, Forall2 teq vs vs' -> sem op ats vs = Some o -> exists o', sem op ats vs' = Some o' /\ Forall2 teq o o') ->
+  sem_transpose_spec A sem op_type ->
+  forall F : string -> list nat -> list A -> A, sem_pointwise_spec_n A sem op_type F ->
+  forall Fcl : list nat -> tensor A -> A -> A, sem_castlike_spec_n A sem op_type Fcl -> castlike_type_only A Fcl ->
+  sem_accepts_spec_n A sem op_type ->
+  forall g act e, tadmissible A sem g e -> decide_step g = Some act -> proved_kind act = true ->
+    refines (tensor A) teq sem (tg_graph g) (tg_graph (apply_taction g act)) e.
+Proof. exact transpose_pair_action_sound. Qed.
+Print Assumptions C02_transpose_pair_action_sound.
+
+Theorem C02_transpose_pair_pass_sound :
+  forall (A : Type) (sem : string -> list nat -> list (tensor A) -> option (list (tensor A))),
+  (forall op ats vs vs' o, Forall2 teq vs vs' -> sem op ats vs = Some o -> exists o', sem op ats vs' = Some o' /\ Forall2 teq o o') ->
+  sem_transpose_spec A sem op_type ->
+  forall F : string -> list nat -> list A -> A, sem_pointwise_spec_n A sem op_type F ->
+  forall Fcl : list nat -> tensor A -> A -> A, sem_castlike_spec_n A sem op_type Fcl -> castlike_type_only A Fcl ->
+  sem_accepts_spec_n A sem op_type ->
+  forall fuel g e, tadmissible_along A sem fuel g e ->
+    refines (tensor A) teq sem (tg_graph g) (tg_graph (transpose_pair_pass fuel g)) e.
+Proof. exact transpose_pair_pass_sound. Qed.
+Print Assumptions C02_transpose_pair_pass_sound.
